@@ -130,6 +130,7 @@ void StatusChecker::step(ActionId prev_action,
  */
 void StatusChecker::begin_run_impl(CoreParams const& params)
 {
+    CELER_VERIF_YIELD("StatusChecker::begin_run_impl:enter");
     // This is called once per stream, possibly concurrently, and other streams
     // may already be reading the data while stepping: build it exactly once.
     static std::mutex initialize_mutex;
@@ -160,8 +161,6 @@ void StatusChecker::begin_run_impl(CoreParams const& params)
         }
     }
     CELER_ASSERT(build_orders.size() == reg.num_actions());
-    CELER_VERIF_YIELD("StatusChecker::begin_run_impl:before-assign");
-
     // Construct host/device data
     data_ = CollectionMirror{std::move(host_val)};
 
